@@ -1,7 +1,70 @@
-/- Line-protocol engine for C02 — stub, to be filled in. -/
-import CV.Proto
+/- Line-protocol engine for C02 (snapshot / restore of the stand-alone instance).
+   See go/overlay/internal/verifharness/c02.
+
+   op:   rt <index rows> <kvs> <tombstones> <sessions> <peerings> <trust bundles>
+           index row   key;value
+           kv          key;payload;modify
+           tombstone   key;index
+           session     id;node;payload;modify;check+check+…      (check list may be empty)
+           peering     id;payload;modify        trust bundle   peerName;payload;modify
+         lists are comma separated, `-` = empty; strings in the CV.Proto encoding.
+   out:  last=<header LastIndex> idx=… kvs=… tombs=… sess=… sc=<node;check;session,…> peer=… tb=… stream=<kind:count,…>
+         computed as  restore (snapshot s)  by the model functions the theorems are about. -/
+import CV.Snap
 namespace CV.Engine.C02
-open CV
-def step (_ : Unit) (_toks : List String) : Unit × String := ((), "bad-op")
+open CV CV.Snap
+
+def parseIdx (tok : String) : Option IdxRow :=
+  match tok.splitOn ";" with
+  | [k, v] => do pure ⟨← decB k, ← v.toNat?⟩
+  | _ => none
+
+def parseKV (tok : String) : Option KV :=
+  match tok.splitOn ";" with
+  | [k, p, m] => do pure ⟨← decB k, ← decS p, ← m.toNat?⟩
+  | _ => none
+
+def parseTomb (tok : String) : Option Tomb :=
+  match tok.splitOn ";" with
+  | [k, i] => do pure ⟨← decB k, ← i.toNat?⟩
+  | _ => none
+
+def parseSess (tok : String) : Option Sess :=
+  match tok.splitOn ";" with
+  | [i, n, p, m, cs] => do
+      let checks ← if cs.isEmpty then some [] else (cs.splitOn "+").mapM decB
+      pure ⟨← decB i, ← decB n, ← decS p, ← m.toNat?, checks⟩
+  | _ => none
+
+def parseLate (tok : String) : Option Late :=
+  match tok.splitOn ";" with
+  | [i, p, m] => do pure ⟨← decB i, ← decS p, ← m.toNat?⟩
+  | _ => none
+
+def encIdx (l : List IdxRow) : String := encList (l.map fun r => encB r.key ++ ";" ++ toString r.value)
+def encKVs (l : List KV) : String := encList (l.map fun e => encB e.key ++ ";" ++ encS e.payload ++ ";" ++ toString e.modify)
+def encTombs (l : List Tomb) : String := encList (l.map fun t => encB t.key ++ ";" ++ toString t.index)
+def encSess (l : List Sess) : String :=
+  encList (l.map fun s => encB s.id ++ ";" ++ encB s.node ++ ";" ++ encS s.payload ++ ";" ++ toString s.modify ++ ";" ++
+    "+".intercalate (s.checks.map encB))
+def encSC (l : List SCheck) : String := encList (l.map fun c => encB c.node ++ ";" ++ encB c.check ++ ";" ++ encB c.session)
+def encLate (l : List Late) : String := encList (l.map fun p => encB p.id ++ ";" ++ encS p.payload ++ ";" ++ toString p.modify)
+def encRuns (l : List (String × Nat)) : String := encList (l.map fun (k, n) => k ++ ":" ++ toString n)
+
+def step (_ : Unit) (toks : List String) : Unit × String :=
+  match toks with
+  | ["rt", i, k, t, s, p, b] =>
+    match (decList i).mapM parseIdx, (decList k).mapM parseKV, (decList t).mapM parseTomb,
+          (decList s).mapM parseSess, (decList p).mapM parseLate, (decList b).mapM parseLate with
+    | some idx, some kvs, some tombs, some sess, some peer, some bund =>
+      -- session_checks of the original is not sent: it is a derived table, the model rebuilds it
+      let st : Snap.State := ⟨idx, kvs, tombs, sess, [], peer, bund⟩
+      let sn := snapshot st
+      let r := restore sn
+      ((), s!"last={sn.last} idx={encIdx r.index} kvs={encKVs r.kvs} tombs={encTombs r.tombs} sess={encSess r.sessions} sc={encSC r.sessionChecks} peer={encLate r.peerings} tb={encLate r.bundles} stream={encRuns (kindRuns sn.recs)}")
+    | _, _, _, _, _, _ => ((), "bad-op")
+  | _ => ((), "bad-op")
+
 def engine : Engine := { State := Unit, init := (), step := step }
+
 end CV.Engine.C02
